@@ -293,3 +293,57 @@ def vault_check(ctx, lines, pid):
     forge("over_quota_accepted", "wforbidden", f_code, "V3:")
     forge("failed_tx_changed_state", "withdrawn", f_failed, "V4/C08")
     ctx.coverage.update(vault=st, vault_traces_valid=nv, vault_deviations=dev, vault_selftests=tests)
+
+
+def nodelife_check(ctx, lines):
+    """TraceNodeLife.tla (epochs, life cycle of node records) on recorded scenarios.  Behaviour outside the listed properties:
+    deviations are printed as SPEC-DEVIATION and kept in the evidence notes; they do not change the exit code."""
+    rej, nv, nev = validate(ctx, lines, "TraceNodeLife", "tracenodelife.cfg")
+    for i, seg in enumerate(rej):
+        line = "SPEC-DEVIATION node life cycle (outside the listed properties) %s: %s at %s" % (
+            json.dumps(seg["events"][0])[:120], seg["why"], seg["failing_event"][:200])
+        if i < 3:
+            print(line)
+            ctx.notes.append(line[:600])
+    # vacuity guard and self-tests on one segment in which a record is removed
+    removed, sample, seg, prev, epoch, pepoch = 0, None, [], None, 0, 0
+    for ln in lines:
+        if '"ev":"begin_chain"' in ln:
+            seg, prev = [], None
+        seg.append(ln)
+        if '"ev":"reg"' in ln:
+            ids = {n["id"] for n in json.loads(ln)["reg"]["nodes"]}
+            if prev is not None and prev - ids:
+                removed += 1
+                if sample is None:
+                    sample = list(seg)
+            prev = ids
+    tests = {}
+    if sample:
+        evs = [json.loads(x) for x in sample]
+        regs = [i for i, e in enumerate(evs) if e["ev"] == "reg"]
+        last, before = regs[-1], regs[-2]
+        gone = [n for n in evs[before]["reg"]["nodes"] if n["id"] not in {m["id"] for m in evs[last]["reg"]["nodes"]}][0]
+
+        def run(forged, want, name):
+            r, _, _ = validate(ctx, [json.dumps(e) + "\n" for e in forged], "TraceNodeLife", "tracenodelife.cfg")
+            why = r[0]["why"] if r else None
+            if not why or want not in why:
+                raise vlib.Infra("node life-cycle self-test %s: forged record %s" % (name, "accepted" if not why else "rejected by " + why))
+            tests[name] = why[-100:]
+        import copy
+        f1 = copy.deepcopy(evs)            # the record stays although it is due
+        f1[last]["reg"]["nodes"].append(gone)
+        run(f1, "N2:", "due_record_survives")
+        f2 = copy.deepcopy(evs[:before + 1])  # the record disappears one block early
+        f2[before]["reg"]["nodes"] = [n for n in f2[before]["reg"]["nodes"] if n["id"] != gone["id"]]
+        run(f2, "N1:", "removed_early")
+        f3 = copy.deepcopy(evs)
+        for e in f3:
+            if e["ev"] == "begin" and e["h"] == f3[last]["h"]:
+                e["epoch"] += 1
+        run(f3, "E", "epoch_jump")
+    ctx.log("node life cycle: %d valid, %d rejected, %d blocks with a removed record; self-tests %s" % (nv, len(rej), removed, sorted(tests)))
+    if removed < 1:
+        ctx.notes.append("node life cycle: no record was removed in these scenarios (clauses N1/N2 not exercised)")
+    ctx.coverage.update(nodelife_traces_valid=nv, nodelife_deviations=len(rej), nodelife_removals=removed, nodelife_selftests=tests)
